@@ -5,7 +5,7 @@
 # redirected to the worktree; /repo itself is never touched.  VERIF_HARNESS points the checks there.
 set -e
 P="$1"; shift; case "$P" in none|/*) ;; *) P="$PWD/$P";; esac
-WT=/tmp/wt_main; H=/tmp/h_main
+WT=${WP_WT:-/tmp/wt_main}; H=${WP_H:-/tmp/h_main}; OUT=${WP_OUT:-/tmp/wp_out}   # override to run several at once
 if [ ! -d $WT ]; then git -C /repo worktree add --detach $WT HEAD >/dev/null 2>&1; fi
 git -C $WT checkout -q --detach "$(git -C /repo rev-parse HEAD)"
 git -C $WT reset -q --hard; git -C $WT clean -qfd
@@ -14,5 +14,5 @@ mkdir -p $H
 rsync -a --delete --exclude target /verif/harness/ $H/
 sed -i "s#/repo#$WT#g" $H/Cargo.toml
 cd /verif
-mkdir -p /tmp/wp_out/evidence /tmp/wp_out/replays
-VERIF_EVIDENCE_DIR=/tmp/wp_out/evidence VERIF_REPLAY_DIR=/tmp/wp_out/replays VERIF_HARNESS=$H "$@"
+mkdir -p $OUT/evidence $OUT/replays
+VERIF_EVIDENCE_DIR=$OUT/evidence VERIF_REPLAY_DIR=$OUT/replays VERIF_HARNESS=$H "$@"
